@@ -295,6 +295,7 @@ class Check:
         if bad:
             self.violation("forbidden-construct", {"kind": "forbidden"}, {"lines": bad}, no_input=True)
             return False
+        coq_make()   # whole project, keep-going: helper libraries used only by generated case files must be built too
         r = check_property_file(self.pid)
         self.theorems = r["theorems"]
         self.obligations = len(r["theorems"])
